@@ -1324,6 +1324,128 @@ def r6_no_state_carried_between_connections(ctx, rid):
                                      f"under a condition (controls: positive matched, negative silent)", label="no state carried between connections/populations")
 
 
+# ------------------------------------------------------------------------------------------------
+# R7 every input term emitted for one edge group is registered in the list the target sum is joined from
+# ------------------------------------------------------------------------------------------------
+
+def _grows(st, name):
+    """statement st grows the list `name`: name.append(..) / name.extend(..) / name.insert(..) / name += [..] / name = name + [..]"""
+    if isinstance(st, ast.Expr) and isinstance(st.value, ast.Call) and isinstance(st.value.func, ast.Attribute) \
+            and st.value.func.attr in ("append", "extend", "insert") and isinstance(st.value.func.value, ast.Name) and st.value.func.value.id == name:
+        return True
+    if isinstance(st, ast.AugAssign) and isinstance(st.op, ast.Add) and isinstance(st.target, ast.Name) and st.target.id == name:
+        return True
+    if isinstance(st, ast.Assign) and len(st.targets) == 1 and isinstance(st.targets[0], ast.Name) and st.targets[0].id == name \
+            and isinstance(st.value, ast.BinOp) and isinstance(st.value.op, ast.Add) and isinstance(st.value.left, ast.Name) and st.value.left.id == name:
+        return True
+    return False
+
+
+def r7_emitted_terms_are_summed(ctx, rid):
+    """When several edge groups project to one target variable, NetworkGraph._generate_edge_equation emits one input term per group
+    (`<t>_in<i> = ...`) into the operator's equation list and finally `<t> = '+'.join(<terms>)`.  The target therefore receives exactly
+    the groups whose term was registered in the joined list.  Necessary condition, on the control-flow graph of the per-group loop body:
+    every path through one iteration that adds an equation to the equation list also adds to the joined list before the iteration ends
+    (fall-through, `continue` or `break`).  A path that emits but leaves early - e.g. a shortcut branch ending in `continue` - silently
+    drops that group's input from the sum (the population circuit then lacks a connection the explicit network has)."""
+    f_orig = ctx.repo.get_func(IR, "NetworkGraph._generate_edge_equation")
+    f = R.view(ctx, f_orig)
+    cfg = ctx.cfg(f)
+    # J: the list the sum is joined from;  Q: the equation list that receives the joined sum
+    joins = [c for c in ast.walk(f.node) if isinstance(c, ast.Call) and call_name(c) == "join" and isinstance(c.func, ast.Attribute)
+             and isinstance(c.func.value, ast.Constant) and isinstance(c.func.value.value, str) and "+" in c.func.value.value and len(c.args) == 1]
+    if len(joins) != 1:
+        raise AnalysisError(f"{rid}: expected one '+'.join(<input terms>) in {f.qual}, found {len(joins)} (anchor vanished)")
+    jarg = joins[0].args[0]
+    if not isinstance(jarg, ast.Name):
+        raise AnalysisError(f"{rid}: the joined terms `{norm(jarg)}` are not a named list (unrecognised form)")
+    J = jarg.id
+    jst = stmt_of(cfg, joins[0])
+    Q = None
+    if isinstance(jst, ast.Expr) and isinstance(jst.value, ast.Call) and isinstance(jst.value.func, ast.Attribute) \
+            and jst.value.func.attr in ("append", "extend", "insert") and isinstance(jst.value.func.value, ast.Name):
+        Q = jst.value.func.value.id
+    elif isinstance(jst, ast.Assign) and len(jst.targets) == 1 and isinstance(jst.targets[0], ast.Name):
+        tmp = jst.targets[0].id                      # eq = f"{t} = {'+'.join(terms)}"; eqs.append(eq)
+        for st in cfg.stmts():
+            if isinstance(st, ast.Expr) and isinstance(st.value, ast.Call) and isinstance(st.value.func, ast.Attribute) \
+                    and st.value.func.attr in ("append", "extend") and isinstance(st.value.func.value, ast.Name) \
+                    and any(isinstance(x, ast.Name) and x.id == tmp for a in st.value.args for x in ast.walk(a)) and cfg.dominates(jst, st):
+                Q = st.value.func.value.id
+    if Q is None:
+        raise AnalysisError(f"{rid}: cannot find the equation list that receives `{norm(jst)}` (unrecognised form)")
+    if Q == J:
+        raise AnalysisError(f"{rid}: the joined list and the equation list are the same object `{Q}` (unrecognised form)")
+    jg = [st for st in cfg.stmts() if _grows(st, J)]
+    if not jg:
+        raise AnalysisError(f"{rid}: the joined list `{J}` is never grown in {f.qual} (unrecognised form)")
+    loops = []
+    for st in jg:
+        ls = [a for a in _ancestors(st) if isinstance(a, (ast.For, ast.While))]
+        if not ls:
+            raise AnalysisError(f"{rid}: `{norm(st)}` grows the joined list outside the per-edge-group loop (unrecognised form)")
+        if all(ls[-1] is not l for l in loops):
+            loops.append(ls[-1])
+    if len(loops) != 1:
+        raise AnalysisError(f"{rid}: the joined list `{J}` is grown in {len(loops)} different loops (unrecognised form)")
+    loop = loops[0]
+    if contains(loop, jst):
+        raise AnalysisError(f"{rid}: the sum `{norm(jst)}` is emitted inside the loop that collects its terms (unrecognised form)")
+    qg = sorted((st for st in cfg.stmts() if _grows(st, Q) and in_loop_body(loop, st)), key=lambda x: (x.lineno, x.col_offset))
+    if not qg:
+        raise AnalysisError(f"{rid}: no equation is emitted inside the per-edge-group loop of {f.qual} (anchor vanished)")
+
+    def is_j(n):
+        return isinstance(n, ast.stmt) and _grows(n, J)
+
+    def leaves_unregistered(start):
+        """a path from `start` to the end of this iteration (back to the loop header, or out of the loop) that never grows J"""
+        seen, stack = {id(start)}, [(start, [start])]
+        while stack:
+            n, path = stack.pop()
+            for x in cfg.g.successors(n):
+                if x is cfg.RAISE:
+                    continue                                   # an exception aborts the compilation: nothing is summed at all
+                if x is loop or not (isinstance(x, ast.AST) and contains(loop, x)):
+                    return path + [x]
+                if id(x) in seen or is_j(x):
+                    continue
+                seen.add(id(x))
+                stack.append((x, path + [x]))
+        return None
+
+    def reaches_unregistered(goal):
+        """a path from the loop header into `goal` within one iteration that never grows J"""
+        seen, stack = {id(loop)}, [(loop, [loop])]
+        while stack:
+            n, path = stack.pop()
+            for x in cfg.g.successors(n):
+                if x is goal:
+                    return path + [x]
+                if not (isinstance(x, ast.AST) and contains(loop, x)) or x is loop or id(x) in seen or is_j(x):
+                    continue
+                seen.add(id(x))
+                stack.append((x, path + [x]))
+        return None
+
+    for st in qg:
+        label = _uniq(ctx, rid, f, f"term registered: {norm(st)[:90]}")
+        out = leaves_unregistered(st) if not is_j(st) else None
+        back = reaches_unregistered(st) if out is not None else None
+        facts = {"equation_list": Q, "joined_list": J, "loop": norm(loop)[:80]}
+        if out is not None and back is not None:
+            facts["witness"] = cfg.path_str(back[:-1] + out)
+            ctx.violation(rid, f, st, f"`{norm(st)[:90]}` emits an input term, but the iteration can end ({cfg.path_str(out)}) without "
+                                      f"`{J}` having been extended: the term is missing from `{norm(jst)[:70]}`, so this edge group's input never "
+                                      f"reaches the target variable when several groups project to it", facts, label=label)
+        else:
+            ctx.ok(rid, f, st, f"every iteration that emits this equation also registers its term in `{J}` before it ends", facts, label=label)
+
+
+def in_loop_body(loop, node):
+    return any(contains(b, node) for b in loop.body)
+
+
 RULES = [
     ("C16-R1", r1_index_roles, 30),
     ("C16-R2", r2_coupling_helpers, 14),
@@ -1331,4 +1453,5 @@ RULES = [
     ("C16-R4", r4_collision_and_forwarding, 10),
     ("C16-R5", r5_source_records, 3),
     ("C16-R6", r6_no_state_carried_between_connections, 1),
+    ("C16-R7", r7_emitted_terms_are_summed, 3),
 ]
